@@ -195,7 +195,7 @@
     }
     /// From pattern part i on: a literal character must be the next character of the text (blanks and comments before
     /// it are skipped, ASCII case is ignored - whatever the parts around it are); a blank in the pattern asks for a
-    /// blank as the very next token unless the text is over; a parameter slot hands over to the expression or sub-rule
+    /// blank or a comment as the very next token unless the text is over; a parameter slot hands over to the expression or sub-rule
     /// matcher, first without and then with the look-ahead cut, and their matches are the result; after the last part the
     /// match stands if the text is used up (or need not be).
     pub open spec fn rule_match<'src>(defs: &ItemDefs, rule: Rule, w: syntax::Walker<'src>, all: bool, i: int, m: InstructionMatch) -> Seq<WorkingMatch<'src>>
@@ -206,7 +206,7 @@
         else {
             match rule.pattern@[i] {
                 RulePatternPart::Exact(c) => match syntax::char_step(w, c) { None => Seq::empty(), Some(w2) => rule_match(defs, rule, w2, all, i + 1, m) },
-                RulePatternPart::Whitespace => if !syntax::over(w) && !syntax::next_is_blank(w) { Seq::empty() } else { rule_match(defs, rule, w, all, i + 1, m) },
+                RulePatternPart::Whitespace => if !syntax::over(w) && !syntax::separates(syntax::next_kind(w)) { Seq::empty() } else { rule_match(defs, rule, w, all, i + 1, m) },
                 RulePatternPart::ParameterIndex(p) => match rule.parameters@[p as int].typ {
                     RuleParameterType::RuledefRef(sub) => nested_cands(defs, sub.0 as int, rule, w, all, i, false, m) + nested_cands(defs, sub.0 as int, rule, w, all, i, true, m),
                     _ => expr_cands(defs, rule, w, all, i, false, m) + expr_cands(defs, rule, w, all, i, true, m),
